@@ -52,8 +52,8 @@ func validDWARF(span uint32, file string) []wb.Custom {
 	hdrRest = append(hdrRest, 0, 0, 0) // dir index, mtime, length
 	hdrRest = append(hdrRest, 0)       // end of file_names
 	var prog []byte
-	prog = append(prog, 0, 5, 2)        // DW_LNE_set_address
-	prog = append(prog, le32(1)...)     //   address 1
+	prog = append(prog, 0, 5, 2)    // DW_LNE_set_address
+	prog = append(prog, le32(1)...) //   address 1
 	n := span
 	if n > 200 {
 		n = 200
@@ -63,7 +63,7 @@ func validDWARF(span uint32, file string) []wb.Custom {
 		prog = append(prog, byte((1+5)+14*1+13))
 	}
 	prog = append(prog, 0x02, 0x80, 0x80, 0x04) // DW_LNS_advance_pc 65536
-	prog = append(prog, 0, 1, 1)                 // DW_LNE_end_sequence
+	prog = append(prog, 0, 1, 1)                // DW_LNE_end_sequence
 	var unit []byte
 	unit = append(unit, le16(4)...)
 	unit = append(unit, le32(uint32(len(hdrRest)))...)
